@@ -64,6 +64,8 @@ def _leaf(fam):
         st.tuples(st.just("event"), t),
         st.tuples(st.just("ctor"), st.booleans()),
         st.tuples(st.just("slot"), t, st.sampled_from(["bounds", "doc"]), st.integers(0, 3)),
+        # update() handed something that is not a mapping, on an instance or on the class
+        st.tuples(st.just("bad_update_arg"), st.sampled_from([0, 1, "class"])),
         st.tuples(st.just("bad_trigger"), t, n),
         st.tuples(st.just("unknown_trigger"), t, n),
     ).map(list)
@@ -412,6 +414,23 @@ def execute(case):
                 world.targets[t].ev = True
             except Fault:
                 note_fault("watcher_on_event")
+                raise
+        elif kind == "bad_update_arg":
+            tgt = world.W if node[1] == "class" else world.targets[node[1]]
+            try:
+                tgt.param.update(5)
+            except TypeError:
+                note_fault("update_argument_not_a_mapping")
+                if node[1] == "class":
+                    # the class is not one of the probed objects: check it right here
+                    seen_cls = []
+                    h = world.W.param.watch(lambda *e: seen_cls.append(e[0].new), "c", onlychanged=False)
+                    old_c = world.W.c
+                    world.W.c = old_c
+                    world.W.param.unwatch(h)
+                    if not seen_cls or world.W.param._BATCH_WATCH or world.W.param._events:
+                        res.fail("C05.state_left", f"after update(5) failed on the class, a class-level assignment is no longer "
+                                                   f"dispatched immediately (batch flag {world.W.param._BATCH_WATCH})")
                 raise
         elif kind == "slot":
             t = node[1]
